@@ -95,3 +95,6 @@ func VerifIsEmptyValue(h Handle, v reflect.Value, recursive, container bool) boo
 	}
 	return isEmptyValue(v, ti, recursive)
 }
+
+// VerifC16SafeMode reports whether the build uses helper_not_unsafe.go.
+func VerifC16SafeMode() bool { return safeMode }
